@@ -4,6 +4,9 @@
 # the fix belongs to, expects VIOLATION (exit 1), and restores /repo. usage: selftest_reverse_fixes.sh [commit prop]...
 set -u
 cd /verif
+# replay files written while a seeded defect is applied must never be mistaken for findings of the real tree
+rm -rf /dev/shm/replays.saved; [ -d replays ] && mv replays /dev/shm/replays.saved
+trap 'rm -rf /verif/replays; [ -d /dev/shm/replays.saved ] && mv /dev/shm/replays.saved /verif/replays' EXIT
 run_one() {
   local c="$1" prop="$2"
   git -C /repo diff "$c^" "$c" -R > /dev/shm/rev.patch
